@@ -1171,6 +1171,19 @@ def r_probe_index(F, V):
             leaves = _add_leaves(val)
             pos = [x for x in leaves if x.endswith(".pos")]
             bit = [x for x in leaves if "BitMaskIter as Iterator>::next" in x or "lowest_set_bit" in x]
+            # a bit index held in a local that is assigned in several places (`let mut next = bitmask.next(); while next.is_none() { ..
+            # next = bitmask.next() }`): a bit index if every definition is one
+            import re as _re5
+            for x in leaves:
+                m5 = _re5.match(r"^l(\d+)(\.downcast)?(\.0)?$", x)
+                if m5 and x not in bit:
+                    ds5 = b.whole_defs(int(m5.group(1)))
+                    def _is_bit_def(d5):
+                        if d5[0] == "stmt" and d5[3]["k"] == "assign" and d5[3]["rv"]["k"] == "use" and d5[3]["rv"]["op"]["k"] in ("copy", "move") and not d5[3]["rv"]["op"]["p"].get("proj"):
+                            d5 = b.single_def(d5[3]["rv"]["op"]["p"]["l"])
+                        return bool(d5) and d5[0] == "call" and ("BitMaskIter as Iterator>::next" in (callee_path(d5[3]) or "") or (callee_path(d5[3]) or "").endswith("lowest_set_bit"))
+                    if len(ds5) >= 2 and all(_is_bit_def(d5) for d5 in ds5):
+                        bit.append(x)
             rest = [x for x in leaves if x not in pos and x not in bit]
             if len(pos) != 1 or len(bit) != 1 or rest:
                 probs.append("the masked value is not exactly probe position + bit index (terms: %s)" % [x[:50] for x in leaves])
